@@ -98,6 +98,10 @@ def ref_merge(x, y, overwrite, info):
         return ("M", {k: ref_merge(x[1].get(k), y[1].get(k), overwrite, info) for k in {**x[1], **y[1]}
                       if ref_merge(x[1].get(k), y[1].get(k), overwrite, info) is not None}, cx)
     # opaque values
+    if kx != ky or kx == "M":
+        # a model meets a scalar / collection at one position (Union field): "the new value overwrites" is
+        # order-dependent here, so associativity is not claimed for such a triple
+        info["mixed"] = True
     if _veq(x, y):
         info["equal_scalar"] = True
         return y
@@ -312,12 +316,20 @@ def check_triple(cls, recipes, origins, overwrite, mode, rec=None, sample=None, 
                                             f"{tag}: leaf {lf} of an operand is missing in {_show(vals(got))}", "lossless")
             else:
                 classes.add("overwrite_later_wins")
-        if not got_conflict and not got_r_conflict and not exp_conflict and not exp_r_conflict:
+        info_r = {}
+        try:
+            ref_merge(csnaps[0], ref_merge(csnaps[1], csnaps[2], overwrite, info_r), overwrite, info_r)
+        except Conflict:
+            pass
+        mixed = info.get("mixed") or info_r.get("mixed") or info_r.get("siblings")
+        if mixed:
+            classes.add("mixed_kinds_at_one_position")
+        if not mixed and not got_conflict and not got_r_conflict and not exp_conflict and not exp_r_conflict:
             classes.add("assoc_checked")
             if vals(got) != vals(got_r):
                 raise Violation("C14:not-associative", f"{tag}: (a+b)+c = {_show(vals(got))} but a+(b+c) = {_show(vals(got_r))} "
                                 f"for a={_show(csnaps[0])} b={_show(csnaps[1])} c={_show(csnaps[2])}", "equal")
-        elif not eqs and (got_conflict != got_r_conflict) and not overwrite and exp_conflict == exp_r_conflict:
+        elif not mixed and not eqs and (got_conflict != got_r_conflict) and not overwrite and exp_conflict == exp_r_conflict:
             raise Violation("C14:not-associative:conflict", f"{tag}: (a+b)+c conflict={got_conflict}, a+(b+c) conflict={got_r_conflict}", "same")
         if exp_conflict and got_conflict:
             classes.add("conflict_raises")
